@@ -119,7 +119,7 @@ pub fn serve(mut handle: impl FnMut(&J) -> J) -> i32 {
         } else {
             "?".into()
         };
-        let site = loc.strip_prefix("/repo/").unwrap_or(&loc).to_string();
+        let site = loc.find("/repo/crates/").map_or(loc.as_str(), |i| &loc[i + 6..]).to_string();
         let out = std::io::stdout();
         let mut o = out.lock();
         let _ = writeln!(o, "PANIC {}|{}", site, msg.replace('\n', " "));
